@@ -59,6 +59,7 @@ _load_oui_names()
 
 
 def _compare_helper (self, other, f, rf):
+  if other is None: return NotImplemented
   t = type(self)
   try:
     if isinstance(other, t): ov = other._value
